@@ -32,7 +32,10 @@ def judge(case, impl, model):
     pedantic = case['c']['fn']['mode'] == 'pedantic'
     pfail = None
     claimed = pedantic and 'nonPlain' not in model['regions'] or 'namedtuple' in model['regions'] and pedantic
-    if claimed and s['anyNonConforming'] and s['keywordCall']:
+    # an attribute assignment reaches the property setter positionally by Python's own protocol: claimed like a keyword call
+    setter = case['x']['access'][0] == 'propset'
+    kwcall = s['keywordCall'] or setter
+    if claimed and (s['anyNonConforming'] or setter and s.get('positionalBad')) and kwcall:
         if impl['ran']:
             pfail = f'the body ran although a supplied value does not conform - {C.describe_case(case)}'
         elif not out.startswith('PED') and C.twin_accepts(impl) and 'clazzFails' not in model['regions']:
@@ -43,5 +46,6 @@ def judge(case, impl, model):
     if pfail and corr:
         if 'namedtuple' in model['regions']:
             finding = 'namedtupleStructuralArgument'
-    return {'corr': corr, 'pfail': pfail, 'finding': finding, 'nontrivial': bool(s['anyNonConforming'] or s['badProduced']),
-            'tag': f"{case['x']['kind']}/{case['x']['flavour']}/bad={int(s['anyNonConforming'])}{int(s['badProduced'])}/{out}", 'why': why}
+    bad_in = bool(s['anyNonConforming'] or setter and s.get('positionalBad'))
+    return {'corr': corr, 'pfail': pfail, 'finding': finding, 'nontrivial': bool(bad_in or s['badProduced']),
+            'tag': f"{case['x']['kind']}/{case['x']['access'][0]}/{case['x']['flavour']}/bad={int(bad_in)}{int(s['badProduced'])}/{out}", 'why': why}
